@@ -263,6 +263,7 @@ def run_check(prop_id: str, tier: str, seed: int) -> int:
     if ctx.prop_failures:
         rc = 1
         violations = ctx.stats["property_failure"]
+        ctx.prop_failures.sort(key=lambda f: len(json.dumps(f["case"], default=str)))   # smallest failing input first
         first = ctx.prop_failures[0]
         path = write_replay(ctx, {"property": prop_id, "seed": seed, "tier": tier, "kind": "failing-input",
                                   "failing_input": first["case"], "detail": first["detail"], "classified_as": first["classified_as"],
